@@ -8,7 +8,7 @@ from harness.drivers import c04
 chk = Check("C04X")
 base = {"op": "none", "kind": "cp", "shape": [], "rank": [], "family": "generic", "how": "function", "mode": 0, "operand": "none", "odim": 0,
         "keep": False, "copy": False, "npad": 0, "padb": False, "lens": [], "maxrank": 0, "thr": 0, "listin": False,
-        "fshapes": [], "coreshape": [], "pshapes": [], "rshapes": [], "mag": 0, "omix": "none", "steps": [], "grade": 0, "negmode": False, "cmix": "none", "cdtypes": []}
+        "fshapes": [], "coreshape": [], "pshapes": [], "rshapes": [], "mag": 0, "omix": "none", "steps": [], "grade": 0, "negmode": False, "cmix": "none", "cdtypes": [], "callform": "kw", "alias": False, "vals": "plain"}
 def cfg(**kw):
     c = dict(base); c.update(kw); return c
 evs = []
@@ -55,6 +55,8 @@ mut(gr, "graded_small_component_dropped", lambda e: e["out"]["recon_hi"][0].__se
 pm = run("good_padmix", cfg(op="pad_tt_rank", kind="tt", shape=[2, 3, 2], rank=[1, 2, 2, 1], npad=1, cmix="f32_first",
                             fshapes=[[1, 2, 2], [2, 3, 2], [2, 2, 1]], cdtypes=["float32", "float64", "float64"]))
 mut(pm, "padmix_cast", lambda e: e["out"].__setitem__("pdtypes", ["float32"] * 3))
+x2 = run("good_seq_failed_call", cfg(op="sequence", shape=[2, 3], rank=[2], mode=1, odim=2, steps=["N", "X", "N"], fshapes=[[2, 2], [3, 2]]))
+mut(x2, "seq_bad_call_accepted", lambda e: e["out"]["steps"][1].__setitem__("accepted", True))
 good = {e["id"] for e in evs if e["id"].startswith("good")}
 rej = chk.validate("TransformsTrace", evs)
 for r in sorted(rej): print(r[:2])
